@@ -24,6 +24,7 @@ Time is `Int` microseconds; `None`-able values are `Option`; sets of ids are dup
 from __future__ import annotations
 
 import ast
+import json
 import pathlib
 
 NAME = "BatteryStatus"
@@ -88,9 +89,10 @@ PY_CLASS_OF = {"BlockingStatus": "Blocking", "BatteryStatusTracker": "Tracker",
                "ComponentPoolStatus": "PoolStatus", "ComponentPoolStatusTracker": "Pool"}
 LEAN_TYPE = {"Int": "Int", "Bool": "Bool", "OptInt": "Option Int", "Status": "Status", "OptStatus": "Option Status",
              "Str": "String", "OptStr": "Option String", "ListStr": "List String", "SetNat": "List Nat", "Nat": "Nat",
-             "Unit": "Unit", "OptPoolStatus": "Option PoolStatus"}
+             "Unit": "Unit", "OptPoolStatus": "Option PoolStatus", "PyStr": "String"}
 PARAM_TYPES = {"BatteryData": "Msg", "InverterData": "Msg", "BatteryData | InverterData": "Msg", "ComponentData": "Msg",
-               "datetime": "Int", "SetPowerResult": "SpResult", "abc.Set[int]": "SetNat", "set[int]": "SetNat"}
+               "datetime": "Int", "SetPowerResult": "SpResult", "abc.Set[int]": "SetNat", "set[int]": "SetNat",
+               "_ComponentStreamStatus": "Stream", "str": "PyStr", "bool": "Bool", "timedelta": "Int"}
 RET_TYPES = {"None": "Unit", "bool": "Bool", "timedelta": "Int", "ComponentStatusEnum": "Status",
              "ComponentStatusEnum | None": "OptStatus", "set[int]": "SetNat", "abc.Set[int]": "SetNat"}
 
@@ -136,8 +138,9 @@ class MethodInfo:
         self.node = node
         self.pyname = node.name
         self.lean = f"{cls}.{camel(node.name)}"
+        self.static = any(ast.unparse(d) == "staticmethod" for d in node.decorator_list)
         self.params: list[tuple[str, str]] = []
-        for a in node.args.args[1:]:
+        for a in (node.args.args if self.static else node.args.args[1:]):
             ann = ast.unparse(a.annotation) if a.annotation is not None else ""
             if ann not in PARAM_TYPES:
                 raise Unsupported(f"{node.name}: parameter {a.arg}: {ann!r}")
@@ -148,6 +151,17 @@ class MethodInfo:
         self.ret = RET_TYPES[ret]
         self.mutating = False
         self.body: list[ast.stmt] = list(node.body)
+        # does it change an object it received as a parameter?  Such helpers are inlined at their call sites.
+        pnames = {a for a, _ in self.params}
+        self.param_mut = False
+        for n in ast.walk(ast.Module(body=self.body, type_ignores=[])):
+            if isinstance(n, (ast.Assign, ast.AnnAssign, ast.AugAssign)):
+                targets = n.targets if isinstance(n, ast.Assign) else [n.target]
+                if any(isinstance(t, ast.Attribute) and root_name(t) in pnames for t in targets):
+                    self.param_mut = True
+            elif isinstance(n, ast.Call) and isinstance(n.func, ast.Attribute) and n.func.attr in ("reset", "add", "discard") \
+                    and root_name(n.func.value) in pnames:
+                self.param_mut = True
 
     def result_type(self) -> str:
         if not self.mutating:
@@ -155,20 +169,73 @@ class MethodInfo:
         return self.cls if self.ret == "Unit" else f"{self.cls} × {lean_ty(self.ret)}"
 
 
+def root_name(node: ast.expr) -> str | None:
+    while isinstance(node, ast.Attribute):
+        node = node.value
+    return node.id if isinstance(node, ast.Name) else None
+
+
 class Registry:
     def __init__(self) -> None:
         self.methods: dict[tuple[str, str], MethodInfo] = {}
         self.tables: dict[str, str] = {}  # python class attribute name -> lean def name (string lists)
+        self.class_nodes: dict[str, ast.ClassDef] = {}  # lean struct name -> python class
+        self.contract: set[tuple[str, str]] = set()  # entry points the lemmas are stated about
 
-    def add(self, cls: str, node: ast.FunctionDef | ast.AsyncFunctionDef) -> MethodInfo:
+    def add(self, cls: str, node: ast.FunctionDef | ast.AsyncFunctionDef, contract: bool = True) -> MethodInfo:
         mi = MethodInfo(cls, node)
         self.methods[(cls, node.name)] = mi
+        if contract:
+            self.contract.add((cls, node.name))
         return mi
 
     def get(self, cls: str, name: str) -> MethodInfo:
         if (cls, name) not in self.methods:
             raise Unsupported(f"call of untranslated method {cls}.{name}")
         return self.methods[(cls, name)]
+
+    def helper_call(self, cls: str, n: ast.Call) -> tuple[str, str] | None:
+        """`self._m(...)`, `ClassName._m(...)` or `self.a.b.m(...)` -> (struct, method) if `m` is a method we know of."""
+        if not isinstance(n.func, ast.Attribute):
+            return None
+        recv, meth = n.func.value, n.func.attr
+        if isinstance(recv, ast.Name) and cls in self.class_nodes and recv.id == self.class_nodes[cls].name:
+            return (cls, meth)
+        p = self_path(recv)
+        if p is None:
+            return None
+        try:
+            ty = resolve_path_type(cls, p) if p else cls
+        except Unsupported:
+            return None
+        return (ty, meth)
+
+    def discover(self, cls: str, bodies: list[list[ast.stmt]]) -> None:
+        """Register (as non-contract helpers) the methods of the same classes that the given code calls, transitively."""
+        work = [(cls, b) for b in bodies]
+        while work:
+            c, body = work.pop()
+            for n in ast.walk(ast.Module(body=body, type_ignores=[])):
+                if not isinstance(n, ast.Call):
+                    continue
+                hc = self.helper_call(c, n)
+                if hc is None or hc in self.methods or hc[0] not in self.class_nodes:
+                    continue
+                node = next((m for m in self.class_nodes[hc[0]].body
+                             if isinstance(m, (ast.FunctionDef, ast.AsyncFunctionDef)) and m.name == hc[1]), None)
+                if node is None or isinstance(node, ast.AsyncFunctionDef):
+                    continue
+                mi = self.add(hc[0], node, contract=False)
+                work.append((hc[0], mi.body))
+
+    def callees(self, mi: MethodInfo) -> list[tuple[str, str]]:
+        out = []
+        for n in ast.walk(ast.Module(body=mi.body, type_ignores=[])):
+            if isinstance(n, ast.Call):
+                hc = self.helper_call(mi.cls, n)
+                if hc is not None and hc in self.methods and hc not in out and hc != (mi.cls, mi.pyname):
+                    out.append(hc)
+        return out
 
 
 def self_path(node: ast.expr) -> list[str] | None:
@@ -196,7 +263,13 @@ def compute_mutating(reg: Registry) -> None:
                     hit = any(self_path(t) is not None for t in targets)
                 elif isinstance(n, ast.Call) and isinstance(n.func, ast.Attribute):
                     p = self_path(n.func.value)
-                    if p is not None:
+                    hc = reg.helper_call(mi.cls, n)
+                    if hc is not None and hc in reg.methods and reg.methods[hc].param_mut \
+                            and any(self_path(a) is not None for a in n.args):
+                        hit = True
+                    elif hc is not None and hc in reg.methods and reg.methods[hc].mutating and hc[0] == mi.cls and not p:
+                        hit = True
+                    elif p is not None:
                         meth = n.func.attr
                         if meth in ("reset", "add", "discard"):
                             hit = True
@@ -251,6 +324,8 @@ class MethodTr:
         self.mode = mode  # "method" | "iteration" (select-loop body) | "poolloop"
         self.extra = extra or {}
         self.counter = 0
+        self.prefix = ""  # prepended to the Lean names of locals of an inlined helper
+        self.inl = 0
 
     # ------------------------------------------------------------------ expressions
     def expr(self, n: ast.expr, env: dict[str, tuple[str, str]]) -> tuple[str, str]:
@@ -263,6 +338,8 @@ class MethodTr:
                 return "none", "None"
             if isinstance(n.value, int):
                 return f"({n.value} : Int)", "Int"
+            if isinstance(n.value, str):
+                return json.dumps(n.value), "PyStr"
             raise Unsupported(f"constant {n.value!r}")
         if isinstance(n, ast.Name):
             if n.id in env:
@@ -321,6 +398,23 @@ class MethodTr:
             return self.compare(n.left, n.ops[0], n.comparators[0], env)
         if isinstance(n, ast.Call):
             return self.call(n, env)
+        if isinstance(n, ast.IfExp):
+            c, tc = self.expr(n.test, env)
+            self.want(tc, "Bool", n.test)
+            a, ta = self.expr(n.body, env)
+            b, tb = self.expr(n.orelse, env)
+            if ta != tb:
+                if ta == "None" and tb.startswith("Opt"):
+                    ta = tb
+                elif tb == "None" and ta.startswith("Opt"):
+                    tb = ta
+                elif ta.startswith("Opt") and tb == ta[3:]:
+                    b, tb = f"(some {b})", ta
+                elif tb.startswith("Opt") and ta == tb[3:]:
+                    a, ta = f"(some {a})", tb
+                else:
+                    raise Unsupported(f"conditional expression of types {ta} / {tb}")
+            return f"(if {c} then {a} else {b})", ta
         raise Unsupported(f"expression {ast.unparse(n)}")
 
     def want(self, got: str, want: str, node: ast.AST) -> None:
@@ -410,6 +504,9 @@ class MethodTr:
         if isinstance(n.func, ast.Attribute):
             recv, meth = n.func.value, n.func.attr
             p = self_path(recv)
+            if p is None and isinstance(recv, ast.Name) and self.cls in self.reg.class_nodes \
+                    and recv.id == self.reg.class_nodes[self.cls].name:
+                p = []  # ClassName._static_helper(...)
             if p is not None:
                 ty = resolve_path_type(self.cls, p) if p else self.cls
                 if ty == "SetNat" and meth == "intersection" and len(n.args) == 1:
@@ -417,7 +514,7 @@ class MethodTr:
                     self.want(ta, "SetNat", n.args[0])
                     return f"(setInter s.{'.'.join(lean_path(self.cls, p))} {a})", "SetNat"
                 mi = self.reg.get(ty, meth)
-                if mi.mutating:
+                if mi.mutating or mi.param_mut:
                     raise Unsupported(f"state-changing call inside an expression: {ast.unparse(n)}")
                 recv_code = "s" if not p else "s." + ".".join(lean_path(self.cls, p))
                 return f"({mi.lean} {recv_code} now{self.args(mi, n, env)})", mi.ret
@@ -484,11 +581,24 @@ class MethodTr:
                 return f"(some {code})"
         raise Unsupported(f"cannot store {ty} into {target}: {ast.unparse(node)}")
 
+    def spath(self, node: ast.expr, env) -> list[str] | None:
+        """Python attribute path from `self` of an expression rooted at `self` or at an alias parameter of an inlined helper."""
+        p = self_path(node)
+        if p is not None:
+            return p
+        names: list[str] = []
+        while isinstance(node, ast.Attribute):
+            names.append(node.attr)
+            node = node.value
+        if isinstance(node, ast.Name) and node.id in env.get("$alias", {}):
+            return list(env["$alias"][node.id]) + list(reversed(names))
+        return None
+
     def mut_call(self, n: ast.Call, env, ind: str) -> tuple[list[str], tuple[str, str] | None]:
         """A state-changing call in statement position -> (lines updating `s`, returned value)."""
         if not isinstance(n.func, ast.Attribute):
             raise Unsupported(f"call {ast.unparse(n)}")
-        p = self_path(n.func.value)
+        p = self.spath(n.func.value, env)
         meth = n.func.attr
         if p is None:
             raise Unsupported(f"call {ast.unparse(n)}")
@@ -515,12 +625,25 @@ class MethodTr:
         lines.append(f"{ind}let s := {set_path(lp, r + '.1') if lp else r + '.1'}")
         return lines, (f"{r}.2", mi.ret)
 
-    def is_mut_call(self, v: ast.expr) -> bool:
+    def inline_target(self, v: ast.expr) -> MethodInfo | None:
+        """Is `v` a call of a helper that changes an object passed as argument (to be inlined)?"""
+        if isinstance(v, ast.Call):
+            hc = self.reg.helper_call(self.cls, v)
+            if hc is not None and hc in self.reg.methods and self.reg.methods[hc].param_mut and hc[0] == self.cls:
+                return self.reg.methods[hc]
+        return None
+
+    def is_mut_call(self, v: ast.expr, env=None) -> bool:
         if isinstance(v, ast.Await):
             return False
         if isinstance(v, ast.Call) and isinstance(v.func, ast.Attribute):
-            p = self_path(v.func.value)
+            if self.inline_target(v) is not None:
+                return False
+            p = self.spath(v.func.value, env or {})
             if p is None:
+                hc = self.reg.helper_call(self.cls, v)
+                if hc is not None and hc in self.reg.methods and self.reg.methods[hc].mutating:
+                    raise Unsupported(f"state-changing static call {ast.unparse(v)}")
                 return False
             meth = v.func.attr
             try:
@@ -532,25 +655,138 @@ class MethodTr:
             return (ty, meth) in self.reg.methods and self.reg.methods[(ty, meth)].mutating
         return False
 
-    def stmts(self, ss: list[ast.stmt], env: dict[str, tuple[str, str]], ind: str) -> str:
+    def end(self, env, value, ind: str, k) -> str:
+        """The function (or the inlined helper) ends here, returning `value` (or nothing)."""
+        if k is not None:
+            return k(env, value, ind)
+        return ind + self.finish(env, value)
+
+    def inline(self, mi: MethodInfo, call: ast.Call, target: str | None, rest, env, ind: str, k) -> str:
+        """Inline `mi` (a helper that changes one of its arguments) at a statement-level call."""
+        if call.keywords or len(call.args) != len(mi.params):
+            raise Unsupported(f"arguments of {ast.unparse(call)}")
+        self.inl += 1
+        caller_prefix, callee_prefix = self.prefix, f"h{self.inl}_"
+        cenv: dict = {"$alias": {}}
+        lines: list[str] = []
+        for a, (pname, pty) in zip(call.args, mi.params):
+            ap = self.spath(a, env)
+            if ap is not None and pty in STRUCTS:
+                if resolve_path_type(self.cls, ap) != pty:
+                    raise Unsupported(f"argument {ast.unparse(a)} is not a {pty}")
+                cenv["$alias"][pname] = ap
+                cenv[pname] = ("s." + ".".join(lean_path(self.cls, ap)), pty)
+            else:
+                c, t = self.expr(a, env)
+                self.want(t, pty, a)
+                if pty == "PyStr":
+                    cenv[pname] = (c, pty)
+                else:
+                    lines.append(f"{ind}let {callee_prefix}{pname} := {c}")
+                    cenv[pname] = (callee_prefix + pname, pty)
+
+        def back(_cenv, value, ind2: str) -> str:
+            saved = self.prefix
+            self.prefix = caller_prefix
+            try:
+                env2 = dict(env)
+                pre = ""
+                if target is not None:
+                    if value is None or value[1] == "None":
+                        env2[target] = ("none", "None")
+                    else:
+                        pre = f"{ind2}let {self.prefix}{target} := {value[0]}\n"
+                        env2[target] = (self.prefix + target, value[1])
+                return pre + self.stmts(rest, env2, ind2, k)
+            finally:
+                self.prefix = saved
+
+        self.prefix = callee_prefix
+        try:
+            body = self.stmts(mi.body, cenv, ind, back)
+        finally:
+            self.prefix = caller_prefix
+        return "\n".join(lines + [body])
+
+    @staticmethod
+    def search_loop(assign: ast.stmt, loop: ast.stmt):
+        """`x = None` + `for v in XS: if C: x = v; break`  ==  `x = next((v for v in XS if C), None)`."""
+        if not (isinstance(assign, ast.Assign) and len(assign.targets) == 1 and isinstance(assign.targets[0], ast.Name)
+                and isinstance(assign.value, ast.Constant) and assign.value.value is None):
+            return None
+        x = assign.targets[0].id
+        if not (isinstance(loop, ast.For) and not loop.orelse and isinstance(loop.target, ast.Name)):
+            return None
+        body = [b for b in loop.body if not is_logging(b)]
+        if len(body) != 1 or not isinstance(body[0], ast.If) or body[0].orelse:
+            return None
+        ib = [b for b in body[0].body if not is_logging(b)]
+        if len(ib) != 2 or not isinstance(ib[1], ast.Break):
+            return None
+        st = ib[0]
+        if not (isinstance(st, ast.Assign) and len(st.targets) == 1 and isinstance(st.targets[0], ast.Name)
+                and st.targets[0].id == x and isinstance(st.value, ast.Name) and st.value.id == loop.target.id):
+            return None
+        gen = ast.GeneratorExp(elt=ast.Name(id=loop.target.id, ctx=ast.Load()),
+                               generators=[ast.comprehension(target=loop.target, iter=loop.iter, ifs=[body[0].test],
+                                                             is_async=0)])
+        new = ast.Assign(targets=[assign.targets[0]],
+                         value=ast.Call(func=ast.Name(id="next", ctx=ast.Load()),
+                                        args=[gen, ast.Constant(value=None)], keywords=[]))
+        return ast.fix_missing_locations(ast.copy_location(new, assign))
+
+    @staticmethod
+    def match_to_if(m: ast.Match) -> list[ast.stmt]:
+        """`match x: case V: … case _: …` with value patterns -> the equivalent if/elif/else chain."""
+        chain: list[ast.stmt] = []
+        for case in reversed(m.cases):
+            pat = case.pattern
+            if isinstance(pat, ast.MatchAs) and pat.pattern is None and pat.name is None and case.guard is None:
+                chain = list(case.body)
+                continue
+            if isinstance(pat, ast.MatchValue):
+                tests: list[ast.expr] = [ast.Compare(left=m.subject, ops=[ast.Eq()], comparators=[pat.value])]
+            elif isinstance(pat, ast.MatchOr) and all(isinstance(q, ast.MatchValue) for q in pat.patterns):
+                tests = [ast.BoolOp(op=ast.Or(), values=[ast.Compare(left=m.subject, ops=[ast.Eq()], comparators=[q.value])
+                                                          for q in pat.patterns])]
+            else:
+                raise Unsupported(f"match pattern {ast.unparse(pat)}")
+            if case.guard is not None:
+                tests.append(case.guard)
+            test = tests[0] if len(tests) == 1 else ast.BoolOp(op=ast.And(), values=tests)
+            node = ast.If(test=test, body=list(case.body), orelse=chain)
+            chain = [ast.fix_missing_locations(ast.copy_location(node, m))]
+        return chain
+
+    def stmts(self, ss: list[ast.stmt], env: dict, ind: str, k=None) -> str:
         if not ss:
-            return ind + self.finish(env, None)
+            return self.end(env, None, ind, k)
         s, rest = ss[0], ss[1:]
         if is_logging(s):
-            return self.stmts(rest, env, ind)
+            return self.stmts(rest, env, ind, k)
+        if isinstance(s, ast.AnnAssign) and s.value is None:
+            return self.stmts(rest, env, ind, k)  # bare declaration `x: T`
+        if rest:
+            merged = self.search_loop(s, rest[0])
+            if merged is not None:
+                return self.stmts([merged] + rest[1:], env, ind, k)
+        if isinstance(s, ast.Match):
+            return self.stmts(self.match_to_if(s) + rest, env, ind, k)
         if isinstance(s, ast.Return):
-            if self.mode != "method":
+            if self.mode != "method" and k is None:
                 raise Unsupported("return inside a loop body")
-            return ind + self.finish(env, None if s.value is None else self.ret_value(s.value, env, ind))
+            return self.end(env, None if s.value is None else self.ret_value(s.value, env, ind), ind, k)
         if isinstance(s, ast.Continue):
-            if self.mode not in ("iteration", "poolloop"):
+            if self.mode not in ("iteration", "poolloop") or k is not None:
                 raise Unsupported("continue outside the translated loop")
             return ind + self.finish(env, None)
         if isinstance(s, ast.If):
+            if isinstance(s.test, ast.Constant) and s.test.value is True:
+                return self.stmts(list(s.body) + rest, env, ind, k)
             c, t = self.expr(s.test, env)
             self.want(t, "Bool", s.test)
-            th = self.stmts(list(s.body) + rest, env, ind + "  ")
-            el = self.stmts(list(s.orelse) + rest, env, ind + "  ")
+            th = self.stmts(list(s.body) + rest, env, ind + "  ", k)
+            el = self.stmts(list(s.orelse) + rest, env, ind + "  ", k)
             return f"{ind}if {c} then\n{th}\n{ind}else\n{el}"
         if isinstance(s, (ast.Assign, ast.AnnAssign)):
             targets = s.targets if isinstance(s, ast.Assign) else [s.target]
@@ -559,7 +795,12 @@ class MethodTr:
                 raise Unsupported(f"assignment {ast.unparse(s)}")
             tgt = targets[0]
             lines: list[str] = []
-            if self.is_mut_call(value):
+            callee = self.inline_target(value)
+            if callee is not None:
+                if not isinstance(tgt, ast.Name):
+                    raise Unsupported(f"assignment {ast.unparse(s)}")
+                return self.inline(callee, value, tgt.id, rest, env, ind, k)  # type: ignore[arg-type]
+            if self.is_mut_call(value, env):
                 lines, val = self.mut_call(value, env, ind)  # type: ignore[arg-type]
                 if val is None:
                     raise Unsupported(f"assignment of a call without result: {ast.unparse(s)}")
@@ -571,41 +812,46 @@ class MethodTr:
                 if ty == "None":
                     env[tgt.id] = ("none", "None")  # typed at its first use; no binding emitted
                 else:
-                    lines.append(f"{ind}let {tgt.id} := {code}")
-                    env[tgt.id] = (tgt.id, ty)
+                    lines.append(f"{ind}let {self.prefix}{tgt.id} := {code}")
+                    env[tgt.id] = (self.prefix + tgt.id, ty)
             else:
-                p = self_path(tgt)
+                p = self.spath(tgt, env)
                 if p is None:
                     raise Unsupported(f"assignment target {ast.unparse(tgt)}")
                 if p[-1] == "_timedelta_zero":
                     if code != "(0 : Int)":
                         raise Unsupported(f"_timedelta_zero is not zero: {ast.unparse(s)}")
-                    return self.stmts(rest, env, ind)
+                    return self.stmts(rest, env, ind, k)
                 fty = resolve_path_type(self.cls, p)
                 lines.append(f"{ind}let s := {set_path(lean_path(self.cls, p), self.coerce(code, ty, fty, s))}")
-            return "\n".join(lines + [self.stmts(rest, env, ind)])
+            return "\n".join(lines + [self.stmts(rest, env, ind, k)])
         if isinstance(s, ast.Expr):
             v = s.value
             if isinstance(v, ast.Await):
-                return self.send(v.value, rest, env, ind)
-            if isinstance(v, ast.Call) and self.is_mut_call(v):
+                return self.send(v.value, rest, env, ind, k)
+            callee = self.inline_target(v)
+            if callee is not None:
+                return self.inline(callee, v, None, rest, env, ind, k)  # type: ignore[arg-type]
+            if isinstance(v, ast.Call) and self.is_mut_call(v, env):
                 lines, _ = self.mut_call(v, env, ind)
-                return "\n".join(lines + [self.stmts(rest, env, ind)])
+                return "\n".join(lines + [self.stmts(rest, env, ind, k)])
             if isinstance(v, ast.Call):
                 # a pure call whose result is dropped: no effect
                 self.expr(v, env)
-                return self.stmts(rest, env, ind)
+                return self.stmts(rest, env, ind, k)
         raise Unsupported(f"statement {ast.unparse(s)[:80]}")
 
     def ret_value(self, v: ast.expr, env, ind: str) -> tuple[str, str]:
-        if self.is_mut_call(v):
+        if self.is_mut_call(v, env) or self.inline_target(v) is not None:
             raise Unsupported("return of a state-changing call")
         return self.expr(v, env)
 
-    def send(self, call: ast.expr, rest, env, ind: str) -> str:
+    def send(self, call: ast.expr, rest, env, ind: str, k=None) -> str:
         if not (isinstance(call, ast.Call) and isinstance(call.func, ast.Attribute) and call.func.attr == "send"
                 and len(call.args) == 1 and not call.keywords):
             raise Unsupported(f"await {ast.unparse(call)}")
+        if k is not None:
+            raise Unsupported("await inside an inlined helper")
         arg = call.args[0]
         if self.mode == "iteration":
             if not (isinstance(arg, ast.Call) and ast.unparse(arg.func) == "ComponentStatus" and len(arg.args) == 2
@@ -621,7 +867,7 @@ class MethodTr:
         else:
             raise Unsupported("await in a method")
         env = dict(env)
-        return f"{ind}let sent := {c}\n" + self.stmts(rest, env, ind)
+        return f"{ind}let sent := {c}\n" + self.stmts(rest, env, ind, k)
 
 
 # --------------------------------------------------------------------------- top level
@@ -770,27 +1016,44 @@ structure Tracker where
 deriving DecidableEq, Repr
 ''')
 
-    # ---- BlockingStatus methods
+    # ---- methods: the entry points ("contract") + whatever helpers they call
+    reg.class_nodes = {"Blocking": blk_cls, "Tracker": trk_cls}
     for name in ("__post_init__", "block", "unblock", "is_blocked"):
         reg.add("Blocking", find_method(blk_cls, name))
-    # ---- tracker methods
     tracker_methods = [
-        "_is_timestamp_outdated", "_is_message_reliable", "_is_battery_state_correct", "_is_inverter_state_correct",
-        "_no_critical_error", "_is_capacity_present",
         "_handle_status_battery", "_handle_status_inverter", "_handle_status_set_power_result",
-        "_handle_status_battery_timer", "_handle_status_inverter_timer",
-        "_get_current_status", "_get_new_status_if_changed",
+        "_handle_status_battery_timer", "_handle_status_inverter_timer", "_get_new_status_if_changed",
     ]
     for name in tracker_methods:
         reg.add("Tracker", find_method(trk_cls, name))
-    # ---- pool
     ps_cls = find_class(cst_mod, "ComponentPoolStatus")
+    pool_cls = find_class(pool_mod, "ComponentPoolStatusTracker")
+    reg.class_nodes["PoolStatus"] = ps_cls
+    reg.class_nodes["Pool"] = pool_cls
     reg.add("PoolStatus", find_method(ps_cls, "get_working_components"))
+    run = find_method(trk_cls, "_run")
+    upd = find_method(pool_cls, "_update_status")
+    reg.discover("Blocking", [mi.body for (c, _), mi in list(reg.methods.items()) if c == "Blocking"])
+    reg.discover("Tracker", [mi.body for (c, _), mi in list(reg.methods.items()) if c == "Tracker"] + [list(run.body)])
+    reg.discover("PoolStatus", [mi.body for (c, _), mi in list(reg.methods.items()) if c == "PoolStatus"])
+    reg.discover("Pool", [list(upd.body)])
     compute_mutating(reg)
     reg.methods[("Blocking", "__post_init__")].lean = "Blocking.postInit"
+    emitted: list[tuple[str, str]] = []
+
+    def emit(key: tuple[str, str]) -> None:
+        if key in emitted:
+            return
+        emitted.append(key)  # (marks it; a cycle would be a recursion we do not translate anyway)
+        mi = reg.methods[key]
+        for callee in reg.callees(mi):
+            emit(callee)
+        if mi.param_mut and key not in reg.contract:
+            return  # inlined at its call sites
+        out.append(emit_def(reg, mi))
 
     for key in [("Blocking", "__post_init__"), ("Blocking", "block"), ("Blocking", "unblock"), ("Blocking", "is_blocked")]:
-        out.append(emit_def(reg, reg.methods[key]))
+        emit(key)
 
     # BlockingStatus(...) constructor = dataclass defaults, then __post_init__
     def default_code(field: str) -> str:
@@ -807,10 +1070,12 @@ deriving DecidableEq, Repr
                f"                      blockedUntil := {default_code('blocked_until')} }} 0\n")
 
     for name in tracker_methods:
-        out.append(emit_def(reg, reg.methods[("Tracker", name)]))
+        emit(("Tracker", name))
+    for key in list(reg.methods):
+        if key[0] == "Tracker":
+            emit(key)  # helpers called only from the select loop
 
     # ---- the select loop of `_run`
-    run = find_method(trk_cls, "_run")
     loops = [n for n in ast.walk(run) if isinstance(n, ast.AsyncFor)]
     if len(loops) != 1:
         raise Unsupported("_run: expected exactly one `async for`")
@@ -928,9 +1193,9 @@ structure Pool where
   currentStatus : PoolStatus
 deriving DecidableEq, Repr
 ''')
-    out.append(emit_def(reg, reg.methods[("PoolStatus", "get_working_components")]))
-    pool_cls = find_class(pool_mod, "ComponentPoolStatusTracker")
-    upd = find_method(pool_cls, "_update_status")
+    for key in list(reg.methods):
+        if key[0] in ("PoolStatus", "Pool"):
+            emit(key)
     ploops = [n for n in upd.body if isinstance(n, ast.AsyncFor)]
     if len(ploops) != 1 or len([s for s in upd.body if not is_logging(s)]) != 1:
         raise Unsupported("_update_status: expected a single `async for`")
@@ -960,5 +1225,12 @@ deriving DecidableEq, Repr
                "/-- `ComponentPoolStatusTracker.get_working_components` -/\n"
                "def Pool.getWorkingComponents (s : Pool) (components : List Nat) : List Nat :=\n"
                "  PoolStatus.getWorkingComponents s.currentStatus 0 components\n")
+    helpers = [reg.methods[k].lean for k in emitted if k not in reg.contract and not reg.methods[k].param_mut]
+    out.append("/-- Unfolds the translated helper functions (everything the entry points call that is not itself an entry\n"
+               "point the lemmas are stated about), whatever helpers the current source happens to have. -/\n"
+               "macro \"c16_unfold_helpers\" : tactic =>\n  `(tactic| try simp only ["
+               + ", ".join(helpers + ["optCmp"]) + "])\n")
+    out.append("macro \"c16_unfold_helpers_at\" h:ident : tactic =>\n  `(tactic| try simp only ["
+               + ", ".join(helpers + ["optCmp"]) + "] at $h:ident)\n")
     out.append("end Extracted.BatteryStatus")
     return "\n".join(out)
